@@ -1,1 +1,51 @@
-From VP Require Import Base.Tactics Coord.Model Coord.Props.
+From Coq Require Import Permutation.
+From VP Require Import Base.Tactics Coord.Model Coord.Spec Coord.Props.
+Open Scope N_scope.
+
+Check (C32_consistent_under_any_interleaving :
+  forall timeout ops,
+    all_steps assumed (init timeout) ops = true ->
+    some_step known (init timeout) ops = false ->
+    Consistent (sc (run (init timeout) ops))).
+Print Assumptions C32_consistent_under_any_interleaving.
+
+(* the statement's vocabulary, pinned *)
+Check (eq_refl : Consistent = fun c : coord =>
+  (forall g gr p d, get (groups c) g = Some gr -> get (gpl gr) p = Some d -> dst d = DRunning ->
+                    exists wk, get (workers c) (dw d) = Some wk) /\
+  (forall w wk, get (workers c) w = Some wk ->
+                Permutation (wasg wk) (placed c w) /\ wrun wk = N.of_nat (length (wasg wk)))).
+Check (eq_refl : known = fun s o => known_reregister s o || known_deregister s o || known_drain s o).
+Check (eq_refl : assumed = fun (s : sys) (o : op) =>
+  match o with
+  | OHeartbeat w n => match get (workers (sc s)) w with Some wk => N.eqb n (wrun wk) | None => true end
+  | ORegister _ _ _ run0 => N.eqb run0 0
+  | OPlanDeploy spec _ => nodupb (spec_names spec)
+  | _ => true
+  end).
+
+Check (C32_any_migration_commit_preserves : forall c m ok, Inv c -> Inv (fst (commit_migrate c m ok))).
+Print Assumptions C32_any_migration_commit_preserves.
+Check (C32_any_teardown_commit_preserves : forall c g, Inv c -> Inv (commit_teardown c g)).
+Print Assumptions C32_any_teardown_commit_preserves.
+Check (C32_any_deploy_commit_preserves :
+  forall c spec tasks outs, NoDup (map tname tasks) -> Inv c -> Inv (commit_deploy c spec tasks outs)).
+Print Assumptions C32_any_deploy_commit_preserves.
+
+Check (C32_hypotheses_satisfiable :
+  all_steps assumed (init 5) example_history = true /\ some_step known (init 5) example_history = false /\
+  map (fun e => (fst e, wasg (snd e))) (workers (sc (run (init 5) example_history))) = [(1, [33]); (2, []); (3, [16])]).
+Print Assumptions C32_hypotheses_satisfiable.
+
+Check (C32_reregister_live_worker_refuted :
+  exists ops, all_steps assumed (init 5) ops = true /\ some_step known_reregister (init 5) ops = true /\
+              ~ Consistent (sc (run (init 5) ops))).
+Print Assumptions C32_reregister_live_worker_refuted.
+Check (C32_deregister_live_worker_refuted :
+  exists ops, all_steps assumed (init 5) ops = true /\ some_step known_deregister (init 5) ops = true /\
+              ~ Consistent (sc (run (init 5) ops))).
+Print Assumptions C32_deregister_live_worker_refuted.
+Check (C32_drain_force_deregister_refuted :
+  exists ops, all_steps assumed (init 5) ops = true /\ some_step known_drain (init 5) ops = true /\
+              ~ Consistent (sc (run (init 5) ops))).
+Print Assumptions C32_drain_force_deregister_refuted.
